@@ -172,17 +172,20 @@ def buildParse (flags : Nat) (specs : List Bytes) (input : List FileRec) : Excep
             cft := cftParse hP (cftData.length + 1) 0 cftData
             est := if fl.est then splitEst (estData.getD []) [] else [] }
 
-/-- `TvfsFile::resolve_path`: path table entry → first VFS entry AT that offset → its first span →
-first container entry AT the span's CFT offset -/
+/-- the two table steps of `resolve_path` from a VFS offset: first VFS entry AT that offset → its
+first span → first container entry AT the span's CFT offset -/
+def Built.resolveOff (b : Built) (off : Nat) : Option CEntry :=
+  match b.vfs.find? (fun e => e.off == off) with
+  | none => none
+  | some v =>
+    match v.spans.head? with
+    | none => none
+    | some (_, _, c) => b.cft.find? (fun e => e.off == c)
+
+/-- `TvfsFile::resolve_path`: first path-table entry with the path, then the table steps -/
 def Built.resolve (b : Built) (path : Bytes) : Option CEntry :=
   match b.files.find? (fun f => f.1 == path) with
   | none => none
-  | some (_, off) =>
-    match b.vfs.find? (fun e => e.off == off) with
-    | none => none
-    | some v =>
-      match v.spans.head? with
-      | none => none
-      | some (_, _, c) => b.cft.find? (fun e => e.off == c)
+  | some (_, off) => b.resolveOff off
 
 end Cascette.Model.TvfsTables
